@@ -11,3 +11,5 @@ func verifServerVersions(c *Conn, ch *clientHelloMsg, v []uint16) []uint16   { r
 func verifCanary(hs *serverHandshakeState)                                   {}
 func verifPreClientFlight(hs *serverHandshakeStateTLS13) error               { return nil }
 func verifEmit(c *Conn, ev string, data []byte)                              {}
+func verifSuite12(hs *serverHandshakeState, s *cipherSuite) *cipherSuite           { return s }
+func verifGroup12(config *Config, g CurveID) CurveID                           { return g }
